@@ -326,7 +326,9 @@ def do_files(payload):
 def do_names(payload):
     for ops in payload["cases"]:
         w = NetCDFWrite(cfdm.CFDMImplementation())
-        w.write_vars = {"ncvar_names": set(), "ncdim_to_size": {}, "dimensions_with_role": {}}
+        # the state of a real (not dry) pass of a mode-"w" write
+        w.write_vars = {"ncvar_names": set(), "ncdim_to_size": {}, "dimensions_with_role": {},
+                        "dry_run": False, "post_dry_run": False, "mode": "w"}
         g = w.write_vars
         out = []
         for op in ops:
